@@ -44,7 +44,7 @@ class Obligation:
 
 
 class St:
-    __slots__ = ('cells', 'iv', 'bv', 'rel', 'fnn')
+    __slots__ = ('cells', 'iv', 'bv', 'rel', 'fnn', 'fb')
 
     def __init__(self):
         self.cells = {}
@@ -52,6 +52,7 @@ class St:
         self.bv = {}
         self.rel = set()
         self.fnn = set()      # ids of float values known not to be NaN
+        self.fb = {}          # float id -> (lo, hi) learnt from comparisons with constants (implies not NaN)
 
     def copy(self):
         s = St()
@@ -60,6 +61,7 @@ class St:
         s.bv = dict(self.bv)
         s.rel = set(self.rel)
         s.fnn = set(self.fnn)
+        s.fb = dict(self.fb)
         return s
 
 
@@ -519,6 +521,7 @@ class Interp:
         out.bv = {k: b for k, b in s1.bv.items() if b2.get(k) is b}
         out.rel = s1.rel & s2.rel if s1.rel is not s2.rel else set(s1.rel)
         out.fnn = s1.fnn & s2.fnn
+        out.fb = {k: (min(v[0], s2.fb[k][0]), max(v[1], s2.fb[k][1])) for k, v in s1.fb.items() if k in s2.fb}
         memo = {}
         c1, c2 = s1.cells, s2.cells
         oc = dict(c1)
@@ -612,9 +615,17 @@ class Interp:
                 out.bv[n] = x
             return ('bool', n)
         if ka == 'float':
-            na = a[3] and not (len(a) > 4 and a[4] in s1.fnn)
-            nb = b[3] and not (len(b) > 4 and b[4] in s2.fnn)
-            return ('float', min(a[1], b[1]), max(a[2], b[2]), na or nb)
+            def view(s, v):
+                lo, hi, nan = v[1], v[2], v[3]
+                if len(v) > 4:
+                    if v[4] in s.fnn:
+                        nan = False
+                    if v[4] in s.fb:
+                        lo, hi, nan = max(lo, s.fb[v[4]][0]), min(hi, s.fb[v[4]][1]), False
+                return lo, hi, nan
+            l1, h1, n1 = view(s1, a)
+            l2, h2, n2 = view(s2, b)
+            return ('float', min(l1, l2), max(h1, h2), n1 or n2)
         if ka == 'buf':
             if a[1] == b[1]:
                 return a
